@@ -468,7 +468,7 @@ class Enumerator:
                     eff = (not dec) if neg else dec
                     bi = tr if eff else fl
                     continue
-                if t["ty"] in ("char", "u32", "u8") and not is_const(on) and not op_place(on).get("p"):
+                if t["ty"] in ("char", "u32", "u8") and not is_const(on):
                     # a match on character / integer constants: keep which constant was taken
                     key = f"int:{self.key_of(op_place(on))}"
                     vals_ = [val for val, bb in targets]
@@ -477,7 +477,9 @@ class Enumerator:
                         s2.disc[key] = ("int", val)
                         s2.hist.append((key, ("int", val)))
                         self._walk(bb, s2, out)
-                    st.disc[key] = ("notint", frozenset(vals_))
+                    prev = st.disc.get(key)
+                    excl = frozenset(vals_) | (prev[1] if isinstance(prev, tuple) and prev[0] == "notint" else frozenset())
+                    st.disc[key] = ("notint", excl)
                     st.hist.append((key, st.disc[key]))
                     bi = ow
                     continue
